@@ -97,6 +97,7 @@ def gen_case(seed):
         'viewer': r.chance(70), 'quiet': r.chance(25), 'explicit': r.chance(50),
         'two_actors': r.chance(30), 'moveupdate': r.chance(40),
         'tokens': r.chance(35), 'stepviewer': r.chance(40), 'extreme': r.chance(20),
+        'replace': r.chance(8),
     }
     names = ['n'] + r.sample([v for v in VAR_MENU if v not in ('n', 't')], r.rint(1, 5))
     if swarm['steps']:
@@ -195,6 +196,18 @@ def gen_case(seed):
         if kind == 'step':
             a['flow'] = r.pick([None, []])
         actors.append(a)
+    if swarm['replace'] and init_cells['agents']:
+        # two actors with one timestep: the first deletes a cell, the second generates a cell
+        # under the same key in the same batch (the cell is replaced within one instant)
+        key = init_cells['agents'][0][0]
+        ts_ = {'mode': 'const', 'vals': [r.rint(1, tsmax)], 'unit': UNIT}
+        k_ = r.rint(0, 3)
+        a0 = {'name': 'actor0', 'kind': 'proc', 'ts': dict(ts_),
+              'ops': [['noop']] * k_ + [['del_named', key]] + [['noop']] * 3}
+        a1 = {'name': 'actor1', 'kind': 'proc', 'ts': dict(ts_),
+              'ops': [['noop']] * k_ + [['gen_named', key, r.pick(['cellA', 'cellB']), _state_for(r, cellvars)]]
+              + [['noop']] * 3}
+        actors = [a0, a1]
     viewers = []
     if swarm['viewer']:
         for i in range(r.rint(1, 2)):
